@@ -784,7 +784,8 @@ def krylov(model, sfield, efield, var):
         pre = "\n"
     pre += "   > "
     if i < 0:
-        if var.exit_message == '':
+        # (The multigrid pre-conditioner might have set it to 'CONVERGED'.)
+        if var.exit_message in ['', 'CONVERGED']:
             var.exit_message = f"Error in {var.sslsolver} ({i})"
         pre = "\n* ERROR   :: "
     elif i > 0:
